@@ -157,10 +157,12 @@ pub fn is_ref_url(url: &str) -> bool {
     !(has_scheme(url) || url.starts_with('/'))
 }
 
-fn has_scheme(url: &str) -> bool {
+// an address with a scheme; what holds white space is no address (a note called "Re: budget")
+pub fn has_scheme(url: &str) -> bool {
     match url.split_once(':') {
         Some((scheme, _)) => {
-            scheme.len() > 1
+            !url.contains(char::is_whitespace)
+                && scheme.len() > 1
                 && scheme.starts_with(|c: char| c.is_ascii_alphabetic())
                 && scheme
                     .chars()
